@@ -163,6 +163,17 @@ impl<'a> Neg for &'a Value {
     }
 }
 
+/// `pow` keeps the exponents of base units within i32. Products and
+/// quotients may leave that range, but repeated squaring (`ans ans`, 33
+/// times) must not walk them out of i64.
+fn bounded_exponents(num: Number) -> Result<Number, String> {
+    if num.unit.iter().any(|(_, &power)| power.abs() > 1 << 40) {
+        Err("Exponent is too large".to_string())
+    } else {
+        Ok(num)
+    }
+}
+
 impl<'a, 'b> Mul<&'b Value> for &'a Value {
     type Output = Result<Value, String>;
 
@@ -170,6 +181,7 @@ impl<'a, 'b> Mul<&'b Value> for &'a Value {
         match (self, other) {
             (&Value::Number(ref left), &Value::Number(ref right)) => (left * right)
                 .ok_or_else(|| "Bug: Mul should not fail".to_string())
+                .and_then(bounded_exponents)
                 .map(Value::Number),
             (&Value::Number(ref co), &Value::Substance(ref sub))
             | (&Value::Substance(ref sub), &Value::Number(ref co)) => {
@@ -187,6 +199,7 @@ impl<'a, 'b> Div<&'b Value> for &'a Value {
         match (self, other) {
             (&Value::Number(ref left), &Value::Number(ref right)) => (left / right)
                 .ok_or_else(|| "Division by zero".to_string())
+                .and_then(bounded_exponents)
                 .map(Value::Number),
             (&Value::Substance(ref sub), &Value::Number(ref co)) => {
                 (sub / co).map(Value::Substance)
